@@ -845,6 +845,17 @@ where
         None => return Ok(()),
     };
     let points = points.par_iter().map(|p| obb.obb_to_aabb(p));
+    #[cfg(feature = "coupe_verif")]
+    if crate::verif::trace_enabled() {
+        let rotated: Vec<PointND<D>> = points.clone().collect();
+        crate::verif::record(
+            "rib_points",
+            rotated
+                .iter()
+                .flat_map(|p| p.iter().map(|c| c.to_bits()).collect::<Vec<u64>>())
+                .collect(),
+        );
+    }
     // When the rotation is done, we just apply RCB
     rcb(partition, points, weights, n_iter, tolerance)
 }
